@@ -1,7 +1,10 @@
 // C04 harness: shutdown safety of qnet.TcpConn (same scenario engine as C03:
-// verifharness/connsim) and of qnet.TcpServer (listener scenarios, mode 2).
+// verifharness/connsim), burst races from a spin barrier (mode 3), and qnet.TcpServer
+// (listener scenarios, mode 2).  Scenarios run in child processes (a panic on a goroutine of
+// the code under test is an observed outcome, not the end of the run).
 // input    = connection scenario (see connsim.Cfg.Sx) | (2 nlisteners ndials drain seed)
-// observed = see coq/C03/Replay.v | coq/C04/Run.v (listener_check)
+//          | (3 trials nclosers nsenders seed)
+// observed = see coq/C03/Replay.v | coq/C04/Run.v (listener_check, burst_check)
 package main
 
 import (
@@ -13,22 +16,20 @@ import (
 	"verifharness/connsim"
 )
 
-var lastNotes []string
-
 func run(in Sx) Sx {
-	if in.At(0).AsInt() == 2 {
-		obs, notes := connsim.RunListener(in)
-		lastNotes = notes
-		return obs
-	}
-	obs, notes := connsim.Run(connsim.CfgOfSx(in))
-	lastNotes = notes
+	obs, _ := connsim.RunIsolated(in)
 	return obs
 }
 
 func main() {
 	log.SetOutput(io.Discard)
+	connsim.ChildMain()
 	Main(run, gen)
+}
+
+type job struct {
+	kind string
+	cfg  *connsim.Cfg
 }
 
 func gen(a Args, out *Out) {
@@ -36,42 +37,6 @@ func gen(a Args, out *Out) {
 	mult := 1
 	if a.Thorough() {
 		mult = 15
-	}
-	notes := func(kind string) {
-		for _, n := range lastNotes {
-			if strings.HasPrefix(n, "stuck:") {
-				out.Count("stuck-state-established")
-				out.Note("%s: %s", kind, n)
-			} else {
-				out.Count("inconclusive-observation")
-				out.Note("%s: inconclusive: %s", kind, n)
-			}
-		}
-	}
-	emit := func(kind string, c connsim.Cfg) {
-		in := c.Sx()
-		obs := run(in)
-		out.Case(kind, true, in, obs)
-		out.CountN("senders", len(c.Senders))
-		out.CountN("closers", len(c.Closers))
-		for _, g := range c.Closers {
-			if g {
-				out.Count("closer:Close")
-			} else {
-				out.Count("closer:ForceClose")
-			}
-		}
-		for _, it := range c.Input {
-			out.Count([]string{"peer:frame", "peer:garbage", "peer:eof", "peer:rst"}[it.Kind])
-		}
-		if c.Ecap < 0 {
-			out.Count("errchan:nil")
-		} else if c.Ecap == 0 {
-			out.Count("errchan:unbuffered")
-		} else {
-			out.Count("errchan:buffered")
-		}
-		notes(kind)
 	}
 	type genf func(*Rng) (string, connsim.Cfg)
 	plan := []struct {
@@ -81,6 +46,7 @@ func gen(a Args, out *Out) {
 		{10, connsim.GatedSendVsTeardown},
 		{16, connsim.GatedDoubleClose},
 		{20, connsim.GatedReadError},
+		{20, connsim.GatedReaderFirst},
 		{10, connsim.GatedInboundFull},
 		{20, connsim.GatedRandom},
 		{6, connsim.GatedBacklog},
@@ -88,19 +54,70 @@ func gen(a Args, out *Out) {
 		{24, connsim.FreeRace},
 		{8, connsim.FreeInbound},
 		{6, func(r *Rng) (string, connsim.Cfg) { return connsim.FreeStream(r, false) }},
+		{10, connsim.FreeImmediate},
+		{6, connsim.WriteFail},
 	}
+	var jobs []job
+	var ins []Sx
 	for _, p := range plan {
 		r := rng.Fork()
 		for k := 0; k < p.n*mult; k++ {
 			kind, c := p.f(r)
-			emit(kind, c)
+			cc := c
+			jobs = append(jobs, job{kind, &cc})
+			ins = append(ins, c.Sx())
 		}
 	}
-	r := rng.Fork()
+	rb := rng.Fork()
+	for k := 0; k < 6*mult; k++ {
+		kind, in := connsim.BurstScenario(rb, 500)
+		jobs = append(jobs, job{kind, nil})
+		ins = append(ins, in)
+	}
+	rl := rng.Fork()
 	for k := 0; k < 10*mult; k++ {
-		kind, in := connsim.ListenerScenario(r)
-		obs := run(in)
-		out.Case(kind, true, in, obs)
-		notes(kind)
+		kind, in := connsim.ListenerScenario(rl)
+		jobs = append(jobs, job{kind, nil})
+		ins = append(ins, in)
+	}
+	results := connsim.RunBatch(ins)
+	for i, j := range jobs {
+		out.Case(j.kind, true, ins[i], results[i].Obs)
+		if c := j.cfg; c != nil {
+			out.CountN("senders", len(c.Senders))
+			out.CountN("closers", len(c.Closers))
+			for _, g := range c.Closers {
+				if g {
+					out.Count("closer:Close")
+				} else {
+					out.Count("closer:ForceClose")
+				}
+			}
+			for _, it := range c.Input {
+				out.Count([]string{"peer:frame", "peer:garbage", "peer:eof", "peer:rst", "peer:truncated", "peer:badlen"}[it.Kind])
+			}
+			if c.Ecap < 0 {
+				out.Count("errchan:nil")
+			} else if c.Ecap == 0 {
+				out.Count("errchan:unbuffered")
+			} else {
+				out.Count("errchan:buffered")
+			}
+		} else if j.kind == "burst-race" {
+			out.CountN("burst-trials", results[i].Obs.At(0).AsInt())
+		}
+		for _, n := range results[i].Notes {
+			switch {
+			case strings.HasPrefix(n, "stuck:"):
+				out.Count("stuck-state-established")
+				out.Note("%s: %s", j.kind, n)
+			case strings.HasPrefix(n, "crash:"):
+				out.Count("scenario-process-crashed")
+				out.Note("%s: %s", j.kind, n)
+			default:
+				out.Count("inconclusive-observation")
+				out.Note("%s: inconclusive: %s", j.kind, n)
+			}
+		}
 	}
 }
